@@ -5,6 +5,7 @@ package drpcpool
 
 import (
 	"context"
+	"sync"
 
 	"github.com/zeebo/errs"
 
@@ -25,6 +26,7 @@ type Conn interface {
 
 // poolConn is a wrapper that asks a Pool for an underlying conn when necessary.
 type poolConn[K comparable, V Conn] struct {
+	once sync.Once
 	done drpcsignal.Chan
 	key  K
 	pool *Pool[K, V]
@@ -33,7 +35,8 @@ type poolConn[K comparable, V Conn] struct {
 
 // Close sets the poolConn to be in a closed state, inhibiting subsequent Invoke or NewStream calls.
 func (p *poolConn[K, V]) Close() error {
-	p.done.Close()
+	// the lazy channel may only be closed once: closing it again would panic.
+	p.once.Do(p.done.Close)
 	return nil
 }
 
